@@ -73,7 +73,11 @@ def main():
                 c = sh([os.path.join(VERIF, 'check'), p, '--tier', args.tier], cwd=VERIF,
                        env=dict(os.environ, VERIF_REPO=wt, VERIF_SEED=args.seed))
                 mechs = sorted({l.split('mechanism=')[1].split(' ')[0] for l in c.stdout.splitlines() if 'mechanism=' in l})
-                caught[p] = {'exit': c.returncode, 'mechanisms': mechs[:6], 'wall_s': round(time.time() - t0, 1)}
+                has_violation_line = any(l.startswith('VIOLATION property=%s ' % p) for l in c.stdout.splitlines())
+                code = c.returncode
+                if code == 1 and not has_violation_line:
+                    code = 99        # crashed: never counts as caught
+                caught[p] = {'exit': code, 'mechanisms': mechs[:6], 'wall_s': round(time.time() - t0, 1)}
             verdict = 'CAUGHT' if caught[prop]['exit'] == 1 else ('caught-by-other' if any(v['exit'] == 1 for v in caught.values()) else 'MISSED')
             results[name] = {'property': prop, 'applies': True, 'suite_passes': suite, 'checks': caught, 'verdict': verdict}
             print('%-48s suite=%s %s %s' % (name, {True: 'pass', False: 'FAIL', None: '-'}[suite], verdict,
